@@ -29,7 +29,8 @@ SPEC_CFGS = {
     "q_dup":  sched_cfg(3, 2, 0, ["TRUE", "FALSE"], False, ["ok", "err"], dup=True, props="Refines"),
     # two contexts: jobs enqueued with a context of their own, cancelled independently of Wait's
     "q_ctx2": sched_cfg(3, 2, 0, ["FALSE"], True, ["ok"], ctx2=True, props="Refines"),
-    "t_ctx2": sched_cfg(3, 2, 3, ["TRUE", "FALSE"], True, ["ok", "err", "goexit"], ctx2=True),
+    "t_ctx2": sched_cfg(3, 2, 0, ["TRUE"], True, ["ok", "err"], ctx2=True, props="Refines"),    # 11.4 M states, 5.5 min (8 workers, loaded machine)
+    # (both modes x {ok, err, goexit} x G = 3 with two contexts did not finish within the 50-minute limit)
     # thorough configurations
     "t_ff4":  sched_cfg(4, 2, 0, ["FALSE"], False, ["ok", "err"]),
     "t_coe4": sched_cfg(4, 2, 0, ["TRUE"], False, ["ok", "err"]),
